@@ -235,6 +235,7 @@ const (
 	LAElem                 // element of an array stored in a location
 	LLocal                 // non-escaping local variable (or a field path inside one)
 	LBufElem               // one byte of a local byte buffer
+	LMutElem               // one element of a local element-wise mutated slice
 )
 
 type Loc struct {
@@ -247,6 +248,7 @@ type Loc struct {
 	Slice  *Val         // LElem
 	Idx    string       // LElem
 	Buf    *bufRef      // LBufElem
+	Ms     *mslice      // LMutElem
 	Local  string       // LLocal: variable name (heap var prefix)
 	LocalT types.Type   // LLocal: type stored at this path
 }
